@@ -194,7 +194,7 @@ def get_fourier_filter_torch(size, filter_name="ramp", device=None, dtype=torch.
         omega = torch.pi * torch.fft.fftfreq(size, device=device)[1:]
         fourier_filter[1:] *= torch.sin(omega) / omega
     elif filter_name == "cosine":
-        freq = torch.linspace(0, torch.pi, steps=size, device=device)
+        freq = torch.linspace(0, torch.pi, steps=size + 1, device=device)[:-1]
         fourier_filter *= torch.fft.fftshift(torch.sin(freq))
     elif filter_name == "hamming":
         hamming = torch.hamming_window(size, periodic=False, dtype=dtype, device=device)
